@@ -26,6 +26,7 @@ const KnownNonCanonical = "tx-noncanonical-encoding-hash"
 var mutations = []string{
 	"none", "none", "none",
 	"expired", "vub_far", "onchain", "conflict_onchain", "conflict_onchain_other_signer", "blocked",
+	"conflict_onchain", "conflict_onchain", "conflict_onchain_other_signer",
 	"badsig", "permute", "oversize", "max_size", "badscript",
 	"high_nocommittee", "dup_conflicts", "conflicts_names_onchain", "nvb_future", "notary_nosigner",
 	"underfunded", "exact_funds", "fee_minus_one", "fee_below_size",
@@ -39,7 +40,12 @@ type AdmCase struct {
 	Mutation string         `json:"mutation"`
 	Pick     int            `json:"pick"`            // selects the signer / witness a mutation applies to
 	Noise    int            `json:"noise,omitempty"` // unrelated valid transactions sitting in the pool (0-2)
-	Enc      []encPick      `json:"enc,omitempty"`   // non-minimal re-encodings of the valid instance to submit
+	// conflict_onchain*: the on-chain transaction B carries ConfN (1-3) Conflicts attributes; the victim is named by
+	// attribute number ConfPos, the other hashes are never-sent transactions of the same signers; B has BSig (1-3) signers.
+	ConfN   int       `json:"conf_n,omitempty"`
+	ConfPos int       `json:"conf_pos,omitempty"`
+	BSig    int       `json:"b_sig,omitempty"`
+	Enc     []encPick `json:"enc,omitempty"` // non-minimal re-encodings of the valid instance to submit
 }
 
 func genChain(t *rapid.T) ck.ChainCfg {
@@ -211,6 +217,11 @@ func genAdmCase(t *rapid.T) AdmCase {
 	c.Tx = genTxSpec(t, c.Chain, c.Mutation)
 	c.Pick = rapid.IntRange(0, 7).Draw(t, "pick")
 	c.Noise = rapid.IntRange(0, 2).Draw(t, "noise")
+	if c.Mutation == "conflict_onchain" || c.Mutation == "conflict_onchain_other_signer" {
+		c.ConfN = rapid.SampledFrom([]int{1, 2, 2, 3, 3, 3}).Draw(t, "conf_n")
+		c.ConfPos = rapid.IntRange(0, c.ConfN-1).Draw(t, "conf_pos")
+		c.BSig = rapid.IntRange(1, 3).Draw(t, "b_sig")
+	}
 	if c.Mutation == "none" || rapid.IntRange(0, 3).Draw(t, "encany") == 0 {
 		for j := rapid.IntRange(0, 3).Draw(t, "nenc"); j > 0; j-- {
 			c.Enc = append(c.Enc, encPick{Pos: rapid.IntRange(0, 40).Draw(t, "epos"), Form: rapid.IntRange(0, 2).Draw(t, "eform")})
@@ -283,6 +294,26 @@ func (e *env) txBlock(txs ...*transaction.Transaction) (*block.Block, error) {
 	blk.EncodeBinary(w.BinWriter)
 	e.raws = append(e.raws, w.Bytes())
 	return blk, nil
+}
+
+// rawBlock adds a block of transactions that never pass through the builder node's pool (a block made elsewhere).
+func (e *env) rawBlock(txs ...*transaction.Transaction) error {
+	blk, err := e.k.b.NextBlock(txs, 1000, uint64(e.nonce()), 0)
+	if err != nil {
+		return err
+	}
+	w := io.NewBufBinWriter()
+	blk.EncodeBinary(w.BinWriter)
+	raw := w.Bytes()
+	dec, err := ck.DecodeBlock(raw, e.k.b.N.Chain.SRIH)
+	if err != nil {
+		return err
+	}
+	if err := e.k.bc.AddBlock(dec); err != nil {
+		return err
+	}
+	e.raws = append(e.raws, raw)
+	return nil
 }
 
 // fund transfers GAS from the genesis holder (standby validators multisig).
@@ -719,7 +750,10 @@ func checkAdm(c AdmCase, o *vt.Obs, nonCanon bool) error {
 		}
 		rejected()
 	case "conflict_onchain", "conflict_onchain_other_signer":
-		signers := []SignerSpec{{Kind: "outsider", Key: c.Pick}}
+		n := min(max(c.ConfN, 1), 3)
+		pos := mod(c.ConfPos, n)
+		nb := min(max(c.BSig, 1), 3)
+		var signers []SignerSpec
 		if mut == "conflict_onchain" {
 			i := pickSigner(notNotary)
 			if i < 0 {
@@ -728,28 +762,66 @@ func checkAdm(c AdmCase, o *vt.Obs, nonCanon bool) error {
 			}
 			shared := T.rs[i].spec
 			shared.Scope = 2
-			if c.Pick%2 == 0 || shared.Kind != "sig" {
-				signers = append(signers, shared)
+			funded := shared.Kind == "sig" || i == 0 // the victim's sender always holds GAS
+			if nb == 1 && !funded {
+				nb = 2
+			}
+			switch {
+			case nb == 1:
+				signers = []SignerSpec{shared}
+			case nb == 2 && funded && c.Pick%2 == 1:
+				signers = []SignerSpec{shared, {Kind: "outsider", Key: c.Pick}}
+			case nb == 2:
+				signers = []SignerSpec{{Kind: "outsider", Key: c.Pick}, shared}
+			default:
+				signers = []SignerSpec{{Kind: "outsider", Key: c.Pick}, shared, {Kind: "outsider", Key: c.Pick + 1, Scope: 1}}
+			}
+			if i == 0 {
+				o.Label("conflict-shared-signer-is-sender")
 			} else {
-				signers = append([]SignerSpec{shared}, signers...)
+				o.Label("conflict-shared-signer-is-cosigner")
 			}
 		} else {
-			signers = append(signers, SignerSpec{Kind: "outsider", Key: c.Pick + 1})
+			signers = []SignerSpec{{Kind: "outsider", Key: c.Pick}}
+			if nb > 1 {
+				signers = append(signers, SignerSpec{Kind: "outsider", Key: c.Pick + 1})
+			}
 		}
-		C, err := e.execTx(signers, []transaction.Attribute{{Type: transaction.ConflictsT, Value: &transaction.Conflicts{Hash: T.tx.Hash()}}}, []byte{byte(opcode.RET)})
+		// The other hashes B names: transactions of the same signers that are built first and never sent.
+		var attrs []transaction.Attribute
+		for j := 0; j < n; j++ {
+			hh := T.tx.Hash()
+			if j != pos {
+				ds := c.Tx
+				ds.Nonce = c.Tx.Nonce + 7919*uint32(j+1)
+				ds.ScriptKind, ds.ScriptSize = "blob", 3+j
+				D, err := k.build(ds, mods{minVUBOff: 1})
+				if err != nil {
+					return fmt.Errorf("decoy transaction: %v", err)
+				}
+				hh = D.tx.Hash()
+			}
+			attrs = append(attrs, transaction.Attribute{Type: transaction.ConflictsT, Value: &transaction.Conflicts{Hash: hh}})
+		}
+		C, err := e.execTx(signers, attrs, []byte{byte(opcode.RET)})
 		if err != nil {
 			return fmt.Errorf("conflicting transaction: %v", err)
 		}
 		if _, err := e.txBlock(C); err != nil {
 			return fmt.Errorf("conflict set-up: %v", err)
 		}
+		o.Labelf("conflict-attrs-%d", n)
+		if pos > 0 {
+			o.Label("conflict-victim-named-by-later-attr")
+		}
+		what := fmt.Sprintf("on-chain transaction with %d signers and %d Conflicts attributes, the victim is named by attribute %d", len(C.Signers), n, pos)
 		if mut == "conflict_onchain" {
-			if err := expectReject(bc, clone(T.tx), "named by the Conflicts attribute of an on-chain transaction signed by one of its signers", core.ErrHasConflicts); err != nil {
+			if err := expectReject(bc, clone(T.tx), "named by an on-chain transaction signed by one of its signers ("+what+"; "+describe(T)+")", core.ErrHasConflicts); err != nil {
 				return err
 			}
 			rejected()
 		} else {
-			if err := expectAccept(bc, clone(T.tx), "named by an on-chain Conflicts attribute of a transaction with NO common signer ("+describe(T)+")"); err != nil {
+			if err := expectAccept(bc, clone(T.tx), "named by an on-chain transaction with NO common signer ("+what+"; "+describe(T)+")"); err != nil {
 				return err
 			}
 			o.Label(mut + "/accepted")
